@@ -38,7 +38,7 @@ func diff(vm, rf run.Outcome) string {
 func sigOf(p *prog.P, d string, f gen.Features) string {
 	// structural signature: which documented feature family the shrunk program exercises
 	var fam []string
-	for _, k := range []string{"recursion-discarded-last", "recursion-tail", "recursion-nontail", "try", "destructuring", "const-group", "call-spread", "call-variadic", "forin", "for", "closure-returned", "assign-captured", "import"} {
+	for _, k := range []string{"recursion-discarded-last", "recursion-mixed-tail-kinds", "recursion-tail", "recursion-nontail", "try", "destructuring", "const-group", "call-spread", "call-variadic", "forin", "for", "closure-returned", "assign-captured", "import"} {
 		if f[k] > 0 {
 			fam = append(fam, k)
 		}
@@ -153,7 +153,10 @@ func classify(rec *ev.Rec, gp *gen.GenProgram, p *prog.P, want run.Outcome) {
 			rec.Class(k)
 		}
 	}
-	if f["recursion-tail"]+f["recursion-nontail"]+f["recursion-discarded-last"] > 0 {
+	if f["recursion-mixed-tail-kinds"] > 0 {
+		rec.Class("recursion-mixed-tail-kinds")
+	}
+	if f["recursion-tail"]+f["recursion-nontail"]+f["recursion-discarded-last"]+f["recursion-mixed-tail-kinds"] > 0 {
 		classes++
 		rec.Class("recursion-template")
 	}
